@@ -48,7 +48,9 @@ def real_attrs(t, v):
     if t == 'key_signature':
         return {'key': KEYS[v[0] - 1]}
     if t == 'sequencer_specific':
-        return {'data': tuple(v)}
+        # every kind of sequence the documentation allows (a list is the documented form)
+        k = (len(v) + sum(v)) % 4
+        return {'data': list(v) if k == 0 else tuple(v) if k == 1 else bytes(v) if k == 2 else bytearray(v)}
     return dict(zip(ATTRS[t], v))
 
 
@@ -191,6 +193,8 @@ def check_probe(t, idx, x, indomain):
     return None
 
 
+import array as _array
+
 ILL_TYPED = [
     ('sequence_number', 'number', [1.5, '1', None]),
     ('channel_prefix', 'channel', [1.0, '1', None]),
@@ -203,7 +207,12 @@ ILL_TYPED = [
     ('key_signature', 'key', ['H', 'c', 'Cm#', '', 5, None]),
     ('text', 'text', [5, b'x', None, ['a']]),
     ('track_name', 'name', [5, b'x', None]),
-    ('sequencer_specific', 'data', [[256], [-1], ['a'], [1.5], [0, 300, 0]]),
+    ('sequencer_specific', 'data', [[256], [-1], ['a'], [1.5], [0, 300, 0], 3, 0, True, None,
+                                    _array.array('H', [256, 1000]), _array.array('i', [-1]),
+                                    memoryview(_array.array('H', [300])), 'abc', [b'a'], [[1]]]),
+    ('text', 'text', [5.0, ('a',)]),
+    ('marker', 'text', [0, None]),
+    ('set_tempo', 'tempo', [True and 2 ** 24, -1, 1e6]),
 ]
 
 
@@ -476,7 +485,7 @@ CHECK_DEADLOCK FALSE
     ctx.constants = {'cfg': cfg.split('\n')[2:6]}
     ctx.assumptions += [
         'text is modelled as the byte sequence of its encoding; the driver instantiates it with latin1 (the default charset), C17 covers other charsets',
-        'sequencer_specific data is constructed as a tuple (decoding returns a tuple; a list would compare unequal)',
+        'sequencer_specific data is given as list, tuple, bytes or bytearray in turn',
         'values of the wrong type are driver-level constants, the specification only states that they are outside every domain',
     ]
     for key, msg in check_custom_spec():
